@@ -278,9 +278,15 @@ class Check:
                     return None
                 return [r[0].encode("utf-8") for r in recs]
             v = json.loads(text)
-            if not isinstance(v, list) or any(not isinstance(x, dict) or "Path" not in x for x in v):
+            if not isinstance(v, list) or any(not isinstance(x, dict) for x in v):
                 return None
-            return [x["Path"].encode("utf-8") for x in v]
+            out = []
+            for x in v:
+                ks = [k for k in x if k.lower() == "path"]  # how the key is capitalised is the formatter's business
+                if len(ks) != 1 or not isinstance(x[ks[0]], str):
+                    return None
+                out.append(x[ks[0]].encode("utf-8"))
+            return out
         except ValueError:
             return None
 
